@@ -73,7 +73,7 @@ func flavorSrc(pre string, k int, f *Flavor) string {
 		if 0 < i {
 			b.WriteByte(' ')
 		}
-		if v.Bare {
+		if v.noDefault() {
 			b.WriteString(v.name())
 		} else {
 			fmt.Fprintf(&b, "(%s %d)", v.name(), v.D)
@@ -111,6 +111,26 @@ func flavorSrc(pre string, k int, f *Flavor) string {
 	if 0 < len(kws) {
 		b.WriteString(" (:init-keywords " + strings.Join(kws, " ") + ")")
 	}
+	if 0 < len(f.Incl) {
+		b.WriteString(" (:included-flavors")
+		for _, g := range f.Incl {
+			b.WriteString(" " + fname(pre, g))
+		}
+		b.WriteString(")")
+	}
+	if f.Abstract {
+		b.WriteString(" :abstract-flavor")
+	}
+	if 0 < len(f.ReqVars) {
+		b.WriteString(" (:required-instance-variables " + strings.Join(f.ReqVars, " ") + ")")
+	}
+	if 0 < len(f.ReqFlavors) {
+		b.WriteString(" (:required-flavors")
+		for _, g := range f.ReqFlavors {
+			b.WriteString(" " + fname(pre, g))
+		}
+		b.WriteString(")")
+	}
 	b.WriteString(")")
 	return b.String()
 }
@@ -124,6 +144,10 @@ func methodSrc(pre string, m Method, ver int) string {
 	id := fmt.Sprintf("%d.%d", m.F, ver)
 	switch m.Kind {
 	case "whopper":
+		if m.Stop {
+			return fmt.Sprintf(`(defwhopper (%s :%s) %s (c11-tr "w%s"%s) (c11-tr "x%s") (list 's %d))`,
+				fname(pre, m.F), m.Msg, ll, id, a, id, m.F)
+		}
 		return fmt.Sprintf(`(defwhopper (%s :%s) %s (c11-tr "w%s"%s) (let ((r (continue-whopper%s))) (c11-tr "x%s") (list 'w %d r)))`,
 			fname(pre, m.F), m.Msg, ll, id, a, ca, id, m.F)
 	case "primary":
@@ -157,11 +181,30 @@ type monitor struct {
 	scratch  map[int]*live
 	// unhandled messages are sent once per flavor
 	unhandledSent map[tm]bool
+	// quiet: the reference-order run of the relation monitor: nothing is
+	// judged against the model, observations are only recorded
+	quiet bool
+	// rec: what the final sweep observed, by observation key (model-free)
+	rec    map[string]string
+	recLbl map[string]string
+	nSend  map[tm]int
+	nMake  map[int]int
+	early  map[int]*live
+}
+
+func (k *monitor) record(key, label, value string) {
+	if k.rec != nil {
+		k.rec[key] = strings.ReplaceAll(value, k.pre, "")
+		k.recLbl[key] = label
+	}
 }
 
 func (k *monitor) history() string { return strings.Join(k.forms, " ") }
 
 func (k *monitor) fail(sig, format string, a ...any) {
+	if k.quiet {
+		return
+	}
 	k.failures++
 	if 6 < k.failures {
 		return
@@ -247,6 +290,9 @@ func judgeTrace(e *expect, got []string) (class, daemon string) {
 		default:
 			other = append(other, m)
 		}
+	}
+	if e.stopped && eqs(gw, e.whopIn) && 0 < len(gb)+len(gp)+len(ga) {
+		return "ran-past-whopper", "whopper-without-continue"
 	}
 	wname := "whopper"
 	if 3 <= e.nWhoppers {
@@ -362,17 +408,32 @@ func (k *monitor) resync(lv *live) {
 // checkSlots compares the instance variables with the model.
 func (k *monitor) checkSlots(what string, lv *live) {
 	want := lv.m.varNames()
+	var recd []string
 	for _, n := range want {
 		v, has := lv.fi.SlotValue(slip.Symbol(n))
+		recd = append(recd, n+"="+sl.Show(v))
+		if k.quiet {
+			continue
+		}
 		if !has {
 			k.fail("fail=var-missing", "%s: an instance of f%d has no variable %s (has %v)", what, lv.m.t, n, lv.fi.SlotNames())
 			return
 		}
 		if g, w := sl.Show(v), show(lv.m.vars[n]); g != w {
+			if k.w.shadowed(lv.m.t, n) && g == "nil" {
+				k.fail("fail=var-default shadowed-by=variable-without-default", "%s: variable %s of an instance of f%d is nil, model says %s: "+
+					"a flavor earlier in precedence names %s without a default, which hides the default a later flavor gives",
+					what, n, lv.m.t, w, n)
+				lv.m.vars[n] = nil
+				continue
+			}
 			k.fail("fail=var-value at="+strings.SplitN(what, " ", 2)[0], "%s: variable %s of an instance of f%d is %s, model says %s", what, n, lv.m.t, g, w)
 			return
 		}
 		k.x.Cover("slot-checked")
+	}
+	if strings.HasPrefix(what, "final after the") {
+		k.record("slots|"+strconv.Itoa(lv.m.t)+"|"+what, "slots", strings.Join(recd, " "))
 	}
 }
 
@@ -402,6 +463,19 @@ func (k *monitor) makeInst(what string, t int, kv []kwarg) (*live, *sl.Err) {
 	}
 	lv.obj, lv.fi = obj, fi
 	k.scope.Let(slip.Symbol(lv.name), obj)
+	if what == "final" || what == "init-keyword" {
+		var vs []string
+		for _, n := range lv.m.varNames() {
+			v, _ := fi.SlotValue(slip.Symbol(n))
+			vs = append(vs, n+"="+sl.Show(v))
+		}
+		key := fmt.Sprintf("make|%d|%s|%v|#%d", t, what, kv, k.nMake[t])
+		k.nMake[t]++
+		k.record(key, "make-instance late="+lateNames[k.w.late[tm{t, "init"}]], strings.Join(got, " ")+" => "+strings.Join(vs, " "))
+	}
+	if k.quiet {
+		return lv, nil
+	}
 	if k.judgeSend(what+" make-instance", t, "init", "send", e, got, nil, nil, false) {
 		k.checkSlots(what+" after make-instance", lv)
 	} else {
@@ -420,22 +494,26 @@ func (k *monitor) send(what string, lv *live, msg, path string) {
 	for n, v := range lv.m.vars {
 		probe.vars[n] = v
 	}
-	if !k.w.send(&probe, msg, arg).handled {
+	t := lv.m.t
+	unhandled := !k.w.send(&probe, msg, arg).handled
+	if unhandled {
 		// an unhandled message leaves condition slots in the receiving
 		// instance on this tree (not this property's concern): use a
 		// throw-away instance and only watch that no daemon runs
-		k.x.Cover("avoided:unhandled-message-to-a-kept-instance")
-		if path != "send" || k.unhandledSent[tm{lv.m.t, msg}] {
+		if !k.quiet {
+			k.x.Cover("avoided:unhandled-message-to-a-kept-instance")
+		}
+		if path != "send" || k.unhandledSent[tm{t, msg}] {
 			return
 		}
-		k.unhandledSent[tm{lv.m.t, msg}] = true
-		sc := k.scratch[lv.m.t]
+		k.unhandledSent[tm{t, msg}] = true
+		sc := k.scratch[t]
 		if sc == nil {
 			var serr *sl.Err
-			if sc, serr = k.makeInst("scratch", lv.m.t, nil); serr != nil {
+			if sc, serr = k.makeInst("scratch", t, nil); serr != nil {
 				return
 			}
-			k.scratch[lv.m.t] = sc
+			k.scratch[t] = sc
 		}
 		lv = sc
 	}
@@ -462,7 +540,23 @@ func (k *monitor) send(what string, lv *live, msg, path string) {
 		})
 	}
 	got := append([]string{}, trace...)
-	if !k.judgeSend(what, lv.m.t, msg, path, e, got, res, err, true) {
+	if what == "final" {
+		key := fmt.Sprintf("send|%d|%s|%s|#%d", t, msg, path, k.nSend[tm{t, msg + path}])
+		k.nSend[tm{t, msg + path}]++
+		v := strings.Join(got, " ")
+		switch {
+		case unhandled:
+		case err != nil:
+			v += " => error " + err.Class
+		default:
+			v += " => " + sl.Show(res)
+		}
+		k.record(key, "send late="+lateNames[k.w.late[tm{t, msg}]]+" path="+path, v)
+	}
+	if k.quiet {
+		return
+	}
+	if !k.judgeSend(what, t, msg, path, e, got, res, err, true) {
 		k.resync(lv)
 	}
 }
@@ -489,9 +583,10 @@ func (k *monitor) checkFlavor(t int) {
 		for 0 < len(got) && (got[len(got)-1] == "t" || got[len(got)-1] == "instance") {
 			got = got[:len(got)-1]
 		}
+		k.record("precedence|"+strconv.Itoa(t), "precedence", strings.Join(got, " "))
 		if !eqs(got, want) {
 			k.fail("fail=precedence", "(class-precedence f%d) => %v, model says %v", t, got, want)
-		} else {
+		} else if !k.quiet {
 			k.x.Cover(fmt.Sprintf("precedence-checked len=%d", len(p)))
 		}
 	}
@@ -528,6 +623,10 @@ func (k *monitor) checkFlavor(t int) {
 			sect = strings.TrimSuffix(strings.TrimSpace(line), ":")
 		}
 	}
+	k.record("describe|"+strconv.Itoa(t), "describe-flavor", fmt.Sprint(inherits, vars, keys))
+	if k.quiet {
+		return
+	}
 	if !eqs(inherits, want[1:]) {
 		k.fail("fail=describe what=inherits", "describe-flavor f%d lists components %v, model says %v", t, inherits, want[1:])
 	}
@@ -535,6 +634,10 @@ func (k *monitor) checkFlavor(t int) {
 	wantVars := map[string]string{}
 	for n, v := range in.vars {
 		wantVars[n] = show(v)
+		// reported once, through the instance variables
+		if k.w.shadowed(t, n) && vars[n] == "nil" {
+			wantVars[n] = "nil"
+		}
 	}
 	if fmt.Sprint(vars) != fmt.Sprint(wantVars) {
 		k.fail("fail=describe what=variable-defaults", "describe-flavor f%d lists variables %v, model says %v", t, vars, wantVars)
@@ -549,12 +652,230 @@ func (k *monitor) checkFlavor(t int) {
 	k.x.Cover("describe-checked")
 }
 
-func exec(x *fw.Ctx, c Case) {
+func newMonitor(x *fw.Ctx, c *Case, quiet bool) *monitor {
 	caseSerial++
-	k := &monitor{x: x, c: &c, w: newWorld(&c), scope: slip.NewScope(), scratch: map[int]*live{}, unhandledSent: map[tm]bool{}, pre: fmt.Sprintf("c%dn%d", x.Index, caseSerial)}
+	return &monitor{x: x, c: c, w: newWorld(c), scope: slip.NewScope(), scratch: map[int]*live{}, unhandledSent: map[tm]bool{},
+		quiet: quiet, rec: map[string]string{}, recLbl: map[string]string{}, nSend: map[tm]int{}, nMake: map[int]int{},
+		early: map[int]*live{}, pre: fmt.Sprintf("c%dn%d", x.Index, caseSerial)}
+}
+
+// runSteps evaluates the history; false when a form could not be defined.
+func (k *monitor) runSteps(steps []Step) bool {
+	x, c := k.x, k.c
+	cover := func(key string) {
+		if !k.quiet {
+			x.Cover(key)
+		}
+	}
+	for si, st := range steps {
+		switch st.Op {
+		case "flavor", "flavor-err":
+			if st.F < 0 || len(c.Flavors) <= st.F {
+				return false
+			}
+			src := flavorSrc(k.pre, st.F, &c.Flavors[st.F])
+			k.forms = append(k.forms, strings.ReplaceAll(src, k.pre, ""))
+			_, err := k.eval(src)
+			if st.Op == "flavor-err" {
+				switch {
+				case err == nil:
+					k.fail("fail=requirement-not-enforced", "step %d %s was accepted although a requirement of an abstract component is not met", si, src)
+				case err.Internal:
+					k.fail("fail=define-error form=defflavor", "step %d %s => %s", si, src, err)
+				default:
+					cover("form:defflavor-rejected-for-requirement")
+				}
+				continue
+			}
+			if err != nil {
+				k.fail("fail=define-error form=defflavor", "step %d %s => %s", si, src, err)
+				return false
+			}
+			k.w.defFlavor(st.F)
+			cover("form:defflavor")
+			fl := &c.Flavors[st.F]
+			if 0 < len(fl.Comps) && (fl.GetAll || fl.SetAll || fl.IniAll) {
+				cover("form:bare-accessor-option-with-components")
+			}
+			if 0 < len(fl.Incl) {
+				cover("form:included-flavors")
+			}
+			if fl.Abstract {
+				cover("form:abstract-flavor")
+			}
+			if 0 < len(fl.ReqVars)+len(fl.ReqFlavors) {
+				cover("form:required-variables/flavors")
+			}
+		case "method":
+			if st.M < 0 || len(c.Methods) <= st.M {
+				return false
+			}
+			m := c.Methods[st.M]
+			ver := k.w.meth[mkey{m.F, m.Kind, m.Msg}] + 1
+			if 1 < ver {
+				cover("form:redefinition")
+			}
+			src := methodSrc(k.pre, m, ver)
+			k.forms = append(k.forms, strings.ReplaceAll(src, k.pre, ""))
+			if _, err := k.eval(src); err != nil {
+				form := "defmethod"
+				if m.Kind == "whopper" {
+					form = "defwhopper"
+				}
+				k.fail("fail=define-error form="+form, "step %d %s => %s", si, src, err)
+				return false
+			}
+			k.w.defMethod(m)
+			cover("form:" + m.Kind)
+			if m.Stop {
+				cover("form:whopper-without-continue")
+			}
+		case "inst":
+			if k.quiet {
+				continue
+			}
+			k.forms = append(k.forms, fmt.Sprintf("[make f%d]", st.F))
+			lv, err := k.makeInst("mid-history", st.F, nil)
+			if err != nil {
+				k.fail("fail=define-error form=make-instance", "step %d make-instance of f%d => %s", si, st.F, err)
+				return false
+			}
+			k.early[st.F] = lv
+			cover("form:mid-history-instance")
+		case "send":
+			if k.quiet {
+				continue
+			}
+			k.forms = append(k.forms, fmt.Sprintf("[send f%d :%s]", st.F, st.Msg))
+			if lv := k.early[st.F]; lv != nil {
+				k.send("mid-history", lv, st.Msg, "send")
+				cover("form:mid-history-send")
+			}
+		}
+	}
+	return true
+}
+
+// finalSweep observes every flavor of the case after the history.
+func (k *monitor) finalSweep() {
+	x, c := k.x, k.c
+	cover := func(key string) {
+		if !k.quiet {
+			x.Cover(key)
+		}
+	}
+	universe := messageUniverse(c)
+	for t := range c.Flavors {
+		if !k.w.defined[t] {
+			continue
+		}
+		k.checkFlavor(t)
+		if c.Flavors[t].Abstract {
+			_, err := k.eval("(make-instance '" + fname(k.pre, t) + ")")
+			switch {
+			case err == nil:
+				k.fail("fail=abstract-flavor-instantiated", "(make-instance 'f%d) succeeded for an :abstract-flavor", t)
+			case err.Internal:
+				k.fail("fail=define-error form=make-instance", "make-instance of abstract f%d => %s", t, err)
+			default:
+				cover("abstract-flavor:make-instance-rejected")
+			}
+			continue
+		}
+		fresh, err := k.makeInst("final", t, nil)
+		if err != nil {
+			k.fail("fail=define-error form=make-instance", "make-instance of f%d => %s", t, err)
+			continue
+		}
+		bound, _ := k.makeInst("final", t, nil)
+		for _, msg := range universe {
+			k.send("final", fresh, msg, "send")
+			if bound != nil {
+				k.send("final", bound, msg, "bound")
+			}
+			if lv := k.early[t]; lv != nil {
+				k.send("final early-instance", lv, msg, "send")
+			}
+		}
+		k.checkSlots("final after the sends", fresh)
+		if bound != nil {
+			k.checkSlots("final after the bound sends", bound)
+		}
+		if lv := k.early[t]; lv != nil {
+			k.checkSlots("final early-instance after the sends", lv)
+		}
+		// init keywords: every variable and every inherited keyword is tried;
+		// acceptance is demanded where the model says the keyword is inherited
+		in, _ := k.w.newInst(t, nil)
+		for _, v := range in.varNames() {
+			must := k.w.mustAcceptVar(t, v)
+			_, err := k.makeInst("init-keyword", t, []kwarg{{v, 55}})
+			k.record(fmt.Sprintf("initkw|%d|%s", t, v), "init-keyword", fmt.Sprint(err == nil))
+			switch {
+			case err == nil:
+				cover("init-keyword:var-accepted")
+			case must:
+				k.fail("fail=init-keyword-rejected kind=var", "(make-instance 'f%d :%s 55) => %s; the model says the variable is initable", t, v, err)
+			default:
+				cover("init-keyword:var-rejected(not required)")
+			}
+		}
+		var ks []string
+		for n := range k.w.keys(t) {
+			ks = append(ks, n)
+		}
+		sort.Strings(ks)
+		for _, n := range ks {
+			_, err := k.makeInst("init-keyword", t, []kwarg{{n, 55}})
+			k.record(fmt.Sprintf("initkw|%d|%s", t, n), "init-keyword", fmt.Sprint(err == nil))
+			if err != nil {
+				k.fail("fail=init-keyword-rejected kind=key", "(make-instance 'f%d :%s 55) => %s; the model says the keyword is inherited", t, n, err)
+			} else {
+				cover("init-keyword:key-accepted")
+			}
+		}
+	}
+}
+
+// referenceSteps is the reference order of the same forms: every flavor
+// (lowest index first among those whose components exist) directly
+// followed by all its methods, so that no method is ever defined after a
+// flavor that inherits it. Definitions of one method keep their order.
+func referenceSteps(c *Case) []Step {
+	var out []Step
+	done := make([]bool, len(c.Flavors))
+	for n := 0; n < len(c.Flavors); n++ {
+		pick := -1
+		for f := range c.Flavors {
+			if done[f] {
+				continue
+			}
+			ok := true
+			for _, d := range c.Flavors[f].deps() {
+				ok = ok && done[d]
+			}
+			if ok {
+				pick = f
+				break
+			}
+		}
+		if pick < 0 {
+			break
+		}
+		done[pick] = true
+		out = append(out, Step{Op: "flavor", F: pick})
+		for _, st := range c.Steps {
+			if st.Op == "method" && 0 <= st.M && st.M < len(c.Methods) && c.Methods[st.M].F == pick {
+				out = append(out, st)
+			}
+		}
+	}
+	return out
+}
+
+func exec(x *fw.Ctx, c Case) {
+	k := newMonitor(x, &c, false)
 	defer sl.Reset()
-	early := map[int]*live{}
-	vers := map[int]int{}
 	x.Cover(fmt.Sprintf("case:flavors=%d", len(c.Flavors)))
 	x.Cover(fmt.Sprintf("case:methods=%d", len(c.Methods)))
 	maxc := 0
@@ -569,110 +890,42 @@ func exec(x *fw.Ctx, c Case) {
 	} else {
 		x.Cover("case:seeded")
 	}
-	for si, st := range c.Steps {
-		switch st.Op {
-		case "flavor":
-			if st.F < 0 || len(c.Flavors) <= st.F {
-				return
-			}
-			src := flavorSrc(k.pre, st.F, &c.Flavors[st.F])
-			k.forms = append(k.forms, strings.ReplaceAll(src, k.pre, ""))
-			if _, err := k.eval(src); err != nil {
-				k.fail("fail=define-error form=defflavor", "step %d %s => %s", si, src, err)
-				return
-			}
-			k.w.defFlavor(st.F)
-			x.Cover("form:defflavor")
-		case "method":
-			if st.M < 0 || len(c.Methods) <= st.M {
-				return
-			}
-			m := c.Methods[st.M]
-			vers[st.M]++
-			if 1 < vers[st.M] {
-				x.Cover("form:redefinition")
-			}
-			src := methodSrc(k.pre, m, vers[st.M])
-			k.forms = append(k.forms, strings.ReplaceAll(src, k.pre, ""))
-			if _, err := k.eval(src); err != nil {
-				form := "defmethod"
-				if m.Kind == "whopper" {
-					form = "defwhopper"
-				}
-				k.fail("fail=define-error form="+form, "step %d %s => %s", si, src, err)
-				return
-			}
-			k.w.defMethod(m)
-			x.Cover("form:" + m.Kind)
-		case "inst":
-			k.forms = append(k.forms, fmt.Sprintf("[make f%d]", st.F))
-			lv, err := k.makeInst("mid-history", st.F, nil)
-			if err != nil {
-				k.fail("fail=define-error form=make-instance", "step %d make-instance of f%d => %s", si, st.F, err)
-				return
-			}
-			early[st.F] = lv
-			x.Cover("form:mid-history-instance")
-		case "send":
-			k.forms = append(k.forms, fmt.Sprintf("[send f%d :%s]", st.F, st.Msg))
-			if lv := early[st.F]; lv != nil {
-				k.send("mid-history", lv, st.Msg, "send")
-				x.Cover("form:mid-history-send")
-			}
-		}
+	if !k.runSteps(c.Steps) {
+		return
 	}
-	universe := messageUniverse(&c)
-	for t := range c.Flavors {
-		if !k.w.defined[t] {
-			continue
-		}
-		k.checkFlavor(t)
-		fresh, err := k.makeInst("final", t, nil)
-		if err != nil {
-			k.fail("fail=define-error form=make-instance", "make-instance of f%d => %s", t, err)
-			continue
-		}
-		bound, _ := k.makeInst("final", t, nil)
-		for _, msg := range universe {
-			k.send("final", fresh, msg, "send")
-			if bound != nil {
-				k.send("final", bound, msg, "bound")
+	k.finalSweep()
+	if c.Rel {
+		// the relation monitor: the same forms in the reference order, under
+		// other names, must give the same observations (no model involved)
+		ref := newMonitor(x, &c, true)
+		if ref.runSteps(referenceSteps(&c)) {
+			ref.finalSweep()
+			keys := make([]string, 0, len(k.rec))
+			for key := range k.rec {
+				keys = append(keys, key)
 			}
-			if lv := early[t]; lv != nil {
-				k.send("final early-instance", lv, msg, "send")
+			sort.Strings(keys)
+			reported := map[string]bool{}
+			for _, key := range keys {
+				x.Cover("relation:observations-compared")
+				rv, has := ref.rec[key]
+				if has && rv == k.rec[key] {
+					continue
+				}
+				lbl := k.recLbl[key]
+				if reported[lbl] {
+					continue
+				}
+				reported[lbl] = true
+				if !has {
+					rv = "<not observed>"
+				}
+				k.fail("relation fail=history-dependent obs="+lbl, "observation %s: this history gives [%s], the same forms in the reference order give [%s] || reference order: %s",
+					key, k.rec[key], rv, ref.history())
 			}
-		}
-		k.checkSlots("final after the sends", fresh)
-		if bound != nil {
-			k.checkSlots("final after the bound sends", bound)
-		}
-		if lv := early[t]; lv != nil {
-			k.checkSlots("final early-instance after the sends", lv)
-		}
-		// init keywords
-		in, _ := k.w.newInst(t, nil)
-		for _, v := range in.varNames() {
-			if !k.w.mustAcceptVar(t, v) {
-				x.Cover("init-keyword:var-not-required")
-				continue
-			}
-			if _, err := k.makeInst("init-keyword", t, []kwarg{{v, 55}}); err != nil {
-				k.fail("fail=init-keyword-rejected kind=var", "(make-instance 'f%d :%s 55) => %s; the model says the variable is initable", t, v, err)
-			} else {
-				x.Cover("init-keyword:var-accepted")
-			}
-		}
-		var ks []string
-		for n := range k.w.keys(t) {
-			ks = append(ks, n)
-		}
-		sort.Strings(ks)
-		for _, n := range ks {
-			if _, err := k.makeInst("init-keyword", t, []kwarg{{n, 55}}); err != nil {
-				k.fail("fail=init-keyword-rejected kind=key", "(make-instance 'f%d :%s 55) => %s; the model says the keyword is inherited", t, n, err)
-			} else {
-				x.Cover("init-keyword:key-accepted")
-			}
+			x.Cover("relation:cases")
+		} else {
+			x.Cover("relation:reference-order-not-definable")
 		}
 	}
 	if !k.rich {
@@ -690,13 +943,20 @@ var caseSerial int
 func init() {
 	fw.Register(fw.Spec[Case]{
 		ID: "C11",
-		Rule: "case = (flavor DAG of 1..5 flavors with up to 3 components each, variables/accessors/init keywords per flavor, " +
-			"assignment of primary/:before/:after/whopper methods on messages :m :n :init and accessor names, a history). " +
-			"First block (3716 cases): every admissible order of the 5..7 forms of template hierarchies (siblings, reversed siblings, chain, two users of one base, diamond, triple, deep sibling, crossed pairs) for each daemon kind, mixed kinds, :init and accessor messages; " +
-			"then 12000 (quick) / 150000 (thorough) seeded DAGs with seeded admissible orders (uniform / methods early / flavors first), redefinitions, instances made and messages sent in mid-history. " +
-			"Every flavor of a case is observed at the end through send and through BoundReceive. " +
+		Rule: "case = (flavor DAG of 1..5 flavors with up to 3 components each; per flavor: variables with and without defaults, listed and bare " +
+			":gettable/:settable/:initable options (bare ones also on flavors with components), :default-init-plist/:init-keywords, in a minority " +
+			":included-flavors, :abstract-flavor with met :required-instance-variables/:required-flavors; an assignment of primary/:before/:after/whopper " +
+			"methods (whoppers that continue and whoppers that do not) on messages :m :n :init and accessor names; a history). " +
+			"First block: every admissible order of the 2..7 forms of template hierarchies (siblings, reversed siblings, chain, two users of one base, " +
+			"diamond, triple, deep sibling, crossed pairs) for each daemon kind, mixed kinds, :init and accessor messages, plain variable and keyword defaults over " +
+			"3- and 4-level chains and diamonds, bare options, non-continuing whoppers, included flavors, abstract flavors with met and unmet requirements; " +
+			"then 8000 (quick) / 110000 (thorough) seeded DAGs with seeded admissible orders (uniform / methods early / flavors first), redefinitions, " +
+			"instances made and messages sent in mid-history. Every flavor of a case is observed at the end through send and through BoundReceive and judged by the " +
+			"reference model; for every template case and every second seeded case the same forms are also evaluated in the reference order (each flavor directly " +
+			"followed by its methods) under other names and all final observations of the two histories are compared without the model. " +
 			"distinct = distinct case JSON; non-trivial = at least one observed send combined daemons of 2 or more flavors. " +
-			"not generated: the bare :gettable/:settable/:initable options on flavors with components, variables without a default that shadow a default",
+			"minority (open finding): variables named without a default in front of a default (1 case in 8). " +
+			"not generated: :included-flavors on a flavor with components or on an abstract flavor and a flavor included twice (position not specified), :required-methods",
 		N:        nCases,
 		Gen:      gen,
 		Exec:     exec,
@@ -707,6 +967,8 @@ func init() {
 			"the reference model in model.go is the specification (precedence = depth-first, first occurrence kept, vanilla-flavor last)",
 			"the harness builtin c11-tr records daemons in the order they run",
 			"instance variables are read through Instance.SlotValue, not through the method tables under test",
+			"the bare :gettable/:settable/:initable options cover every variable of the flavor, inherited ones included (FuncDoc of defflavor: 'for each variable')",
+			"an included flavor that is not a component otherwise follows the flavor that includes it",
 		},
 	})
 }
